@@ -199,6 +199,17 @@ Section Spec.
     | None, _ => true
     end.
 
-  Definition mon_C10 : bool := s_ok_sound && s_complete && s_err && s_timeout.
+  (* liveness: with a stagger delay configured, the operation never hangs while a candidate that
+     was never started would accept *)
+  Definition s_hang : bool :=
+    match res with
+    | RHang => match c_delay c with
+               | Some _ => forallb (fun i => match start_of i with
+                                             | Some _ => true
+                                             | None => negb (is_out i Succ) end) (seq 0 (length atts))
+               | None => true end
+    | _ => true end.
+
+  Definition mon_C10 : bool := s_ok_sound && s_complete && s_err && s_timeout && s_hang.
   Definition mon_C11 : bool := s_order && s_initial && s_pace && s_unstarted && s_deadline.
 End Spec.
